@@ -34,6 +34,7 @@ var bridgeOps = []struct{ Name, Src string }{
 	{"call-args", `%X[%P](1, "x", {})`},
 	{"define-value", `Object.defineProperty(%X, %P, {value: 1, writable: true, enumerable: true, configurable: true})`},
 	{"define-getter", `Object.defineProperty(%X, %P, {get: function(){ return 1 }, configurable: true})`},
+	{"define-attrs", `Object.defineProperty(%X, %P, {enumerable: false})`},
 	{"gopd", `Object.getOwnPropertyDescriptor(%X, %P)`},
 	{"hasOwn", `Object.prototype.hasOwnProperty.call(%X, %P)`},
 	{"for-in", `(function(){ var k = []; for (var n in %X) k.push(n); return k.join() })()`},
